@@ -6,11 +6,12 @@
        level — including operands of size 0; for BGV the exact condition on the correction factors, with witnesses that it is needed.
    Y3  refusals on representation / scheme / level-count / size mismatches (`evaluator_refusals`), and what the model does not check.
    Y4  size law n1 + n2 − 1 of the products; the model does NOT refuse oversize results (the code does, through `resize`).
-   Helper names carry the prefix `c06y_`; the user-facing theorems are at the end under "Property theorems". -/
+   Helper names carry the prefix `c06y_`; the user-facing theorems are at the end under "Property theorems".
+   This file holds the GENERAL theorems and does not import `Proofs/NonVac.lean`; the witnesses, findings and non-vacuity examples in the
+   constructor-built world of `NonVac` are in `Proofs/C06YW.lean`. -/
 import Heathcliff.Proofs.C02V
 import Heathcliff.Proofs.C05U
 import Heathcliff.Proofs.C04T
-import Heathcliff.Proofs.NonVac
 namespace HC
 
 /-! ## Y1: `ctValid` versus `CtCanon` -/
@@ -868,81 +869,6 @@ theorem modSwitchScaleNext_preserves_valid {l l' : Level} (hl : l.scheme ≠ .bf
     obtain ⟨r', hr', _, _, _, _, hiff⟩ := modSwitchScaleNext_bgv_valid_iff (hl (by rw [hs]; decide)) h (hg hs) hn h2 hs hv hntt
     rw [hr] at hr'; cases hr'; exact hiff.mpr (hcf hs)
 
-/-! ### non-vacuity of the level bundles: the two-level world of `Proofs/NonVac.lean` (N = 4, q = {97, 113}, t = 17, tool and
-      tables built by the model's constructors `RNSTool.new`, `NTTTables.new`, `RNSBase.new`), with the scheme as a parameter -/
-
-def c06y_nvL (s : Scheme) : Level := { nv_level with scheme := s }
-def c06y_nvL1 (s : Scheme) : Level := { nv_level1 with scheme := s }
-
-theorem c06y_nvL_wf (s : Scheme) : (c06y_nvL s).WF := ⟨nv_level_wf.npow, nv_level_wf.tsize, nv_level_wf.twf⟩
-theorem c06y_nvL_tool (s : Scheme) : c05u_ToolOK (c06y_nvL s) :=
-  ⟨nv_toolOK_fields.1, nv_toolOK_fields.2.1, nv_toolOK_fields.2.2.1, nv_toolOK_fields.2.2.2⟩
-theorem c06y_nvL_bgv (s : Scheme) : c05u_BgvOK (c06y_nvL s) :=
-  ⟨nv_bgvOK_fields.1, nv_bgvOK_fields.2.1, nv_bgvOK_fields.2.2.1, nv_bgvOK_fields.2.2.2⟩
-theorem c06y_nvL_next (s : Scheme) : c06y_NextLevel (c06y_nvL s) (c06y_nvL1 s) :=
-  ⟨⟨nv_isNext_fields.1, nv_isNext_fields.2.1, nv_isNext_fields.2.2⟩, rfl, rfl⟩
-theorem c06y_nvL_qs (s : Scheme) : c02v_QsWF (c06y_nvL s) := c02v_qsWF_of_levelWF (c06y_nvL_wf s)
-
-/-- the ciphertext of `NonVac` with representation flag and correction factor as parameters -/
-def c06y_nvCt (ntt : Bool) (f : Nat) : Ct := ⟨#[nv_c0enc, nv_c1], ntt, f⟩
-
-theorem c06y_nvCt_canon (s : Scheme) (ntt : Bool) (f : Nat) : c05u_CtCanon (c06y_nvL s) (c06y_nvCt ntt f) := by
-  intro k hk
-  have hk' : k < 2 := hk
-  interval_cases k
-  · exact nv_c0enc_canon
-  · exact nv_c1_canon
-
-theorem c06y_nvCt_valid_bgv (ntt : Bool) (f : Nat) (h0 : f ≠ 0) (h17 : f ≤ 17) :
-    ctValid (c06y_nvL .bgv) (c06y_nvCt ntt f) true false = true :=
-  c06y_valid_mk (Or.inr ⟨Nat.le_refl 2, (by decide : 2 ≤ 16)⟩) (c06y_nvCt_canon .bgv ntt f) (rfl : true = true) ⟨h0, h17⟩
-
-theorem c06y_nvCt_valid_bfv : ctValid (c06y_nvL .bfv) (c06y_nvCt false 1) true false = true :=
-  c06y_valid_mk (Or.inr ⟨by decide, by decide⟩) (c06y_nvCt_canon .bfv false 1) (rfl : true = true) (rfl : (1 : Nat) = 1)
-
-theorem c06y_nvCt_valid_ckks : ctValid (c06y_nvL .ckks) (c06y_nvCt true 1) false false = true :=
-  c06y_valid_mk (Or.inr ⟨by decide, by decide⟩) (c06y_nvCt_canon .ckks true 1) (rfl : false = false) (rfl : (1 : Nat) = 1)
-
-/-- FINDING (validity predicate): BGV `mod_switch_to_next` of a VALID ciphertext with correction factor t = 17 succeeds and returns a
-    ciphertext with correction factor 0, not valid at the next level -/
-theorem modSwitchScaleNext_bgv_needs_cf_ne_t :
-    ∃ ct r, ctValid (c06y_nvL .bgv) ct true false = true ∧ modSwitchScaleNext (c06y_nvL .bgv) ct = .ok r ∧
-      c05u_CtCanon (c06y_nvL1 .bgv) r ∧ ctValid (c06y_nvL1 .bgv) r true false = false := by
-  have hv := c06y_nvCt_valid_bgv true 17 (by decide) (by decide)
-  obtain ⟨r, hr, _, _, _, cr, hiff⟩ := modSwitchScaleNext_bgv_valid_iff (c06y_nvL_wf .bgv) (c06y_nvL_tool .bgv) (c06y_nvL_bgv .bgv)
-    (c06y_nvL_next .bgv) (by decide) rfl hv rfl
-  refine ⟨_, r, hv, hr, cr, ?_⟩
-  cases h : ctValid (c06y_nvL1 .bgv) r true false
-  · rfl
-  · exact absurd rfl (hiff.mp h)
-
-/-- the three switching theorems are not vacuous: they apply in the constructor-built world -/
-example : ∃ r, modSwitchScaleNext (c06y_nvL .bfv) (c06y_nvCt false 1) = .ok r ∧ ctValid (c06y_nvL1 .bfv) r true false = true :=
-  let ⟨r, h, v, _⟩ := modSwitchScaleNext_bfv_valid (c06y_nvL_tool .bfv) (c06y_nvL_next .bfv) (by decide) rfl c06y_nvCt_valid_bfv rfl
-  ⟨r, h, v⟩
-example : ∃ r, modSwitchScaleNext (c06y_nvL .ckks) (c06y_nvCt true 1) = .ok r ∧ ctValid (c06y_nvL1 .ckks) r false false = true :=
-  let ⟨r, h, v, _⟩ := modSwitchScaleNext_ckks_valid (c06y_nvL_wf .ckks) (c06y_nvL_tool .ckks) (c06y_nvL_next .ckks) (by decide) rfl
-    c06y_nvCt_valid_ckks rfl
-  ⟨r, h, v⟩
-example : ∃ r, modSwitchScaleNext (c06y_nvL .bgv) (c06y_nvCt true 3) = .ok r ∧ ctValid (c06y_nvL1 .bgv) r true false = true :=
-  let ⟨r, h, v, _⟩ := modSwitchScaleNext_bgv_valid (c06y_nvL_wf .bgv) (c06y_nvL_tool .bgv) (c06y_nvL_bgv .bgv) (c06y_nvL_next .bgv)
-    (by decide) rfl (c06y_nvCt_valid_bgv true 3 (by decide) (by decide)) rfl (by decide)
-  ⟨r, h, v⟩
-example : ∃ r, modSwitchDropNext (c06y_nvL .ckks) (c06y_nvCt true 1) = .ok r ∧ ctValid (c06y_nvL1 .ckks) r false false = true :=
-  let ⟨r, h, v, _⟩ := modSwitchDropNext_valid (c06y_nvL_next .ckks) (by decide) c06y_nvCt_valid_ckks (fun _ => rfl)
-  ⟨r, h, v⟩
-example : ∃ r, bgvMultiply (c06y_nvL .bgv) (c06y_nvCt true 3) (c06y_nvCt true 5) = .ok r ∧
-    ctValid (c06y_nvL .bgv) r true false = true ∧ r.polys.size = 3 :=
-  let ⟨r, h, v, sz, _⟩ := bgvMultiply_valid (c06y_nvL_qs .bgv) nv_m17_wf rfl (c06y_nvCt_valid_bgv true 3 (by decide) (by decide))
-    (c06y_nvCt_valid_bgv true 5 (by decide) (by decide)) rfl rfl (by decide) (by decide) (by decide) (by decide) (by decide)
-  ⟨r, h, v, sz⟩
-example : ∃ r, ctTranslateBalanced (c06y_nvL .bgv) (c06y_nvCt true 3) (c06y_nvCt true 5) true = .ok r ∧
-    ctValid (c06y_nvL .bgv) r true false = true :=
-  let ⟨r, h, v, _⟩ := ctTranslateBalanced_valid (c06y_nvL_qs .bgv) (fun _ => nv_m17_wf)
-    (c06y_nvCt_valid_bgv true 3 (by decide) (by decide)) (c06y_nvCt_valid_bgv true 5 (by decide) (by decide)) true rfl
-    (fun _ => ⟨by decide, by decide⟩)
-  ⟨r, h, v⟩
-
 /-! ### Y3: refusals — metadata the operations inspect -/
 
 /-- Y3: operands in different representations are never accepted by the balanced add / sub either (on the balancing path the
@@ -1123,82 +1049,6 @@ theorem applyGalois_valid {kl : KeyLevel} {l : Level} (hl : l.WF) (hk : c06y_Key
   simp only []
   rw [if_neg (by omega), if_neg (by omega), h0, h1]
   exact hr
-
-/-! ### non-vacuity of the key-switching bundles: key level {97, P = 113} of `Proofs/NonVac.lean`, ciphertext level {97} -/
-
-theorem c06y_nv_keyLevelOf (s : Scheme) : c06y_KeyLevelOf nv_kl (c06y_nvL1 s) :=
-  ⟨rfl, fun j hj => by have hj' : j < 1 := hj; interval_cases j; rfl⟩
-
-theorem c06y_nv_klok : c06y_KLOK nv_kl 1 :=
-  ⟨⟨nv_kl_wf_fields.1, nv_kl_wf_fields.2⟩, nv_ksinput_fields.1, nv_ksinput_fields.2.1, nv_ksinput_fields.2.2.2.2.2.1,
-    nv_ksinput_fields.2.2.2.2.2.2.2⟩
-
-theorem c06y_nv_keyok : c06y_KeyOK nv_kl 1 nv_kskey :=
-  ⟨nv_ksinput_fields.2.2.1, by decide, nv_ksinput_fields.2.2.2.2.1⟩
-
-/-- a size-3 coefficient-form ciphertext at the level {97} -/
-def c06y_nvCt3 : Ct := ⟨#[#[#[69, 3, 49, 39]], #[#[0, 0, 0, 0]], #[#[73, 12, 45, 82]]], false, 1⟩
-
-theorem c06y_nvCt3_valid : ctValid (c06y_nvL1 .bfv) c06y_nvCt3 true false = true := by
-  refine c06y_valid_mk (Or.inr ⟨by decide, by decide⟩) (fun k hk => ?_) (rfl : true = true) (rfl : (1 : Nat) = 1)
-  have hk' : k < 3 := hk
-  interval_cases k <;> (unfold RnsCanon; decide)
-
-example : ∃ r, relinearize nv_kl .bfv 1 (fun m => if m = 2 then some nv_kskey else none) 2 c06y_nvCt3 = .ok r ∧
-    ctValid (c06y_nvL1 .bfv) r true false = true ∧ r.polys.size = 2 :=
-  let ⟨r, h, v, sz, _⟩ := relinearize_valid (c06y_nv_keyLevelOf .bfv) c06y_nv_klok (fun h => Scheme.noConfusion h)
-    (fun m => if m = 2 then some nv_kskey else none) 2 c06y_nvCt3 c06y_nvCt3_valid (by decide) (by decide)
-    (fun _ => ⟨fun h => Bool.noConfusion h, fun h => absurd rfl h⟩)
-    (fun m h1 h2 => by
-      have h3 : m < 3 := h2
-      have : m = 2 := by omega
-      subst this
-      exact ⟨nv_kskey, rfl, c06y_nv_keyok⟩)
-  ⟨r, h, v, sz⟩
-
-theorem c06y_nv_bgvData : c04t_BgvData nv_kl := ⟨nv_m17_wf, by decide, by decide⟩
-theorem c06y_nvL1_wf (s : Scheme) : (c06y_nvL1 s).WF := ⟨nv_level1_wf.npow, nv_level1_wf.tsize, nv_level1_wf.twf⟩
-
-/-- a size-2 NTT-form BGV ciphertext at the level {97} with correction factor 3 -/
-def c06y_nvCt2 : Ct := ⟨#[#[#[69, 3, 49, 39]], #[#[73, 12, 45, 82]]], true, 3⟩
-
-theorem c06y_nvCt2_valid : ctValid (c06y_nvL1 .bgv) c06y_nvCt2 true false = true := by
-  refine c06y_valid_mk (Or.inr ⟨by decide, by decide⟩) (fun k hk => ?_) (rfl : true = true) ⟨by decide, by decide⟩
-  have hk' : k < 2 := hk
-  interval_cases k <;> (unfold RnsCanon; decide)
-
-example : ∃ r, applyGalois nv_kl (c06y_nvL1 .bgv) .bgv c06y_nvCt2 3 nv_kskey = .ok r ∧
-    ctValid (c06y_nvL1 .bgv) r true false = true :=
-  let ⟨r, h, v, _⟩ := applyGalois_valid (c06y_nvL1_wf .bgv) (c06y_nv_keyLevelOf .bgv) c06y_nv_klok (fun _ => c06y_nv_bgvData)
-    c06y_nv_keyok c06y_nvCt2_valid rfl ⟨fun _ h => Scheme.noConfusion h, fun _ => rfl⟩ (g := 3) (by decide) (by decide)
-  ⟨r, h, v⟩
-
-/-! ### Y4: the size bound is enforced by `ctValid` only -/
-
-/-- nine copies of a canonical polynomial: a valid size-9 CKKS ciphertext in the constructor-built world -/
-def c06y_nvBig : Ct := ⟨Array.replicate 9 nv_c0enc, true, 1⟩
-
-theorem c06y_nvBig_valid : ctValid (c06y_nvL .ckks) c06y_nvBig false false = true := by
-  refine c06y_valid_mk (Or.inr ⟨by decide, by decide⟩) (fun k hk => ?_) (rfl : false = false) (rfl : (1 : Nat) = 1)
-  have hk' : k < 9 := by simpa [c06y_nvBig] using hk
-  have e : c06y_nvBig.polys.getD k #[] = nv_c0enc := by simp [c06y_nvBig, Array.getD, hk']
-  rw [e]; exact nv_c0enc_canon
-
-/-- Y4 (model vs code): the product of two VALID size-9 ciphertexts is NOT refused by the model — it returns 17 canonical
-    polynomials, an object `ctValid` rejects.  The Rust code panics in `Ciphertext::resize` ("Size invalid") before computing
-    anything, so the model is more permissive than the code here; validity of the result needs `n1 + n2 − 1 ≤ 16`
-    (`ctMultiplyDyadic_valid`). -/
-theorem ctMultiplyDyadic_oversize_not_refused :
-    ∃ r, ctMultiplyDyadic (c06y_nvL .ckks) c06y_nvBig c06y_nvBig = .ok r ∧ r.polys.size = 17 ∧
-      c05u_CtCanon (c06y_nvL .ckks) r ∧ ctValid (c06y_nvL .ckks) r false false = false := by
-  obtain ⟨r, hr, sr, _, _, cr, hiff⟩ := ctMultiplyDyadic_valid (c06y_nvL_qs .ckks) c06y_nvBig_valid c06y_nvBig_valid rfl rfl
-    (by decide) (by decide)
-  have s9 : c06y_nvBig.polys.size = 9 := by simp [c06y_nvBig]
-  rw [s9] at sr hiff
-  refine ⟨r, hr, sr, cr, ?_⟩
-  cases h : ctValid (c06y_nvL .ckks) r false false
-  · rfl
-  · exact absurd (hiff.mp h) (by decide)
 
 /-! ### `bfv_multiply`: metadata and size (the residues of the BEHZ pipeline are not covered: no end-to-end theorem for it exists) -/
 
